@@ -289,7 +289,8 @@ def snap(a):
             "c": onum(dd.get("_traits_cache_c")), "ad": a.ad.v, "y": onum(dd.get("y")),
             "ad2": -1 if a.ad2 is None else a.ad2.v,
             "oreg": obs_count(a), "zz": [num(dd.get("zz%d" % i, 0)) for i in range(dd["_vz"])],
-            "ade": -5 if a.ade is None else num(getattr(a.ade, "v", -7))}
+            "ade": -5 if a.ade is None else num(getattr(a.ade, "v", -7)),
+            "pv": onum(dd.get("pv")), "dpv": num(a.deleg.__dict__.get("pv", -3))}
 
 
 def reg(a):
